@@ -113,6 +113,7 @@ def gen(rng, tier):
                                 'vsim_mods.beta.gamma'], rng.randint(0, 3))
   if rng.random() < 0.4:
     case['late_at'] = rng.randint(1, max(len(binds), 1))
+    case['late_method'] = rng.random() < 0.5
   if rng.random() < 0.25:
     case['dyn'] = {'seed': rng.getrandbits(32)}
   return case
@@ -208,12 +209,17 @@ def run(case):
          'params': [{'n': p, 'k': 'def', 'd': 'dflt'} for p in 'abc']}, hook)
     gin.configurable(name, module=mod or 'rootmod')(obj)
 
+  # the registrations that happen in the middle of the history: with or without
+  # the class tb.Tr (whose registration moves its method to another name)
+  late_probes = LATE_PROBES if case.get('late_method', True) else \
+      [f for f in LATE_PROBES if not f.endswith('.Tr.step')]
+
   def setup(late=True):
     world.reset()
     probes.plant_module('vsim_mods.alpha')
     probes.plant_module('vsim_mods.beta.gamma')
-    if late:
-      for full in LATE_PROBES:
+    for full in LATE_PROBES:
+      if late or full not in late_probes:
         register_one(full)
     for full in PROBES:
       register_one(full)
@@ -250,7 +256,7 @@ def run(case):
     for pos, bi in enumerate(order):
       if record_texts and pos == case.get('late_at', -1):
         # same-named configurables appear while bindings already exist
-        for full in LATE_PROBES:
+        for full in late_probes:
           register_one(full)
         late_done[0] = True
       if pos == case['bad_at']:
@@ -299,7 +305,7 @@ def run(case):
   try:
     texts = apply(list(range(len(case['binds']))), True)
     if 'late_at' in case and case['late_at'] >= len(case['binds']):
-      for full in LATE_PROBES:
+      for full in late_probes:
         register_one(full)
     S = cs()
   except Exception as e:  # pylint: disable=broad-except
@@ -596,6 +602,10 @@ def _dynamic(case, v, log, stats):
   leafs = rng.sample(['vpa.util', 'vpb.util', 'vpc.util', 'vpa.other'],
                      rng.randint(2, 3))
   orders = [list(range(len(leafs))), list(reversed(range(len(leafs))))]
+  # registered under their Python names, or under names of their own
+  custom = rng.random() < 0.5
+  regname = (lambda li: 'custom_sf%d' % li) if custom else \
+      (lambda li: 'sf%d' % li)
   texts = []
   for order in orders:
     world.reset()
@@ -604,8 +614,8 @@ def _dynamic(case, v, log, stats):
       g2 = {'__name__': modname}
       exec('def sf%d(x=0, y=0):\n  return x\n' % li, g2)  # pylint: disable=exec-used
       probes.plant_module(modname, {'sf%d' % li: g2['sf%d' % li]})
-      gin.configurable(g2['sf%d' % li])
-      names.append('%s.sf%d' % (modname, li))
+      gin.configurable(regname(li))(g2['sf%d' % li])
+      names.append('%s.%s' % (modname, regname(li)))
     try:
       gin.parse_config('from __gin__ import dynamic_registration\n')
       for i in order:
@@ -631,11 +641,11 @@ def _dynamic(case, v, log, stats):
         g2 = {'__name__': modname}
         exec('def sf%d(x=0, y=0):\n  return x\n' % li, g2)  # pylint: disable=exec-used
         probes.plant_module(modname, {'sf%d' % li: g2['sf%d' % li]})
-        gin.configurable(g2['sf%d' % li])
+        gin.configurable(regname(li))(g2['sf%d' % li])
       try:
         gin.parse_config(texts[0])
         for li, modname in enumerate(leafs):
-          got = gin.query_parameter('%s.sf%d.x' % (modname, li))
+          got = gin.query_parameter('%s.%s.x' % (modname, regname(li)))
           if got != li:
             v('C06.round_trip', ['dynamic', 'generated-imports'],
               'after re-parsing, %s.sf%d.x is %r\n%s' %
